@@ -41,7 +41,7 @@ class C14(Harness):
         return {"instances": "1..2" if q else "1..3", "columns": "1..2", "series_length": "2..%d (unequal lengths for padding / truncation)" % (5 if q else 6), "paa_intervals": "1..length"}
 
     def cells(self, tier):
-        names = ["padding", "truncation", "paa", "tabularizer", "concatenator", "interval-int", "interval-array", "sliding", "features", "row", "slope", "cosine", "adaptor"]
+        names = ["padding", "padding-int", "truncation", "paa", "tabularizer", "concatenator", "interval-int", "interval-array", "sliding", "features", "row", "slope", "cosine", "adaptor"]
         out = [{"name": n, "kind": n, "cost": 2} for n in names]
         for m in ("ffill", "bfill", "constant", "mean", "median", "linear"):
             out.append({"name": "imputer-" + m, "kind": "imputer", "method": m, "cost": 1})
@@ -75,6 +75,16 @@ class C14(Harness):
 
         Lmax = 5 if q else 6
         inp = {}
+        if k == "padding-int":
+            # integer-valued cells (counts) and an arbitrary real fill value in [-2, 2]
+            lens = [choice("len0", 1, 2), 3]
+            inp["x"] = [[[3 * i + t + 1 for t in range(lens[i])]] for i in range(2)]
+            inp["pad"] = choice("pad", 0, 4)
+            if inp["pad"] and inp["pad"] < 3:
+                ctx.assume(False)
+            inp["fill"] = ctx.fresh_real("fill")
+            ctx.assume((inp["fill"] >= -2) & (inp["fill"] <= 2))
+            return inp
         if k in ("padding", "truncation"):
             ni = choice("ni", 1, 2)
             nc = choice("nc", 1, 2)
@@ -152,7 +162,12 @@ class C14(Harness):
             t = IM(method=cell["method"], value=inp["value"] if cell["method"] == "constant" else None)
             r = t.fit(z).transform(z)
             return {"vals": L(r.values), "idx": L(r.index)}
-        X, sym = self._nested(inp["x"])
+        if k == "padding-int":
+            X = pd.DataFrame({"c0": [pd.Series(np.array(inst[0], dtype="int64")) for inst in inp["x"]]})
+            sym = is_sym(inp["fill"])
+            cell = dict(cell, kind="padding")
+        else:
+            X, sym = self._nested(inp["x"])
         worlds.TOKEN_MODE[0] = sym
         try:
             return self._panel(W, X, inp, cell, sym)
@@ -322,7 +337,7 @@ class C14(Harness):
             P.check("rows-in-input-order", ok)
             return ok
 
-        if k == "padding":
+        if k in ("padding", "padding-int"):
             maxlen = max(len(x[i][j]) for i in range(ni) for j in range(nc))
             p = inp["pad"] or maxlen
             if out["rejected"] or p < maxlen:
